@@ -901,7 +901,8 @@ func (s *AsPathSet) List() []string {
 		list = append(list, exp.String())
 	}
 	for _, exp := range s.list {
-		list = append(list, exp.String())
+		// back to the configured notation: "_" was expanded when compiling
+		list = append(list, strings.ReplaceAll(exp.String(), ASPATH_REGEXP_MAGIC, "_"))
 	}
 	return list
 }
